@@ -98,6 +98,22 @@ func (p *Prog) PathExists(fn *ssa.Function, from ssa.Instruction, to, avoid Pred
 		}
 		key := ""
 		switch x := cond.(type) {
+		case *ssa.BinOp:
+			// phi == nil / phi != nil, where the path recorded whether the value it joined is nil
+			if x.Op == token.EQL || x.Op == token.NEQ {
+				var ph *ssa.Phi
+				if c, isC := x.Y.(*ssa.Const); isC && c.IsNil() {
+					ph, _ = x.X.(*ssa.Phi)
+				} else if c, isC := x.X.(*ssa.Const); isC && c.IsNil() {
+					ph, _ = x.Y.(*ssa.Phi)
+				}
+				if ph != nil {
+					key = "ν" + ph.Name() + "@" + uniqFuncName(ph.Parent())
+					if x.Op == token.EQL {
+						neg = !neg
+					}
+				}
+			}
 		case *ssa.Phi:
 			key = "φ" + x.Name() + "@" + uniqFuncName(x.Parent())
 		case *ssa.Extract:
@@ -180,6 +196,18 @@ func (p *Prog) PathExists(fn *ssa.Function, from ssa.Instruction, to, avoid Pred
 					break
 				}
 				if !isBool(ph.Type()) {
+					// nil-ness of a joined pointer / interface / func value
+					for k, pb := range s.Preds {
+						if pb != b {
+							continue
+						}
+						key := "ν" + ph.Name() + "@" + uniqFuncName(ph.Parent())
+						if nn, known := p.nilness(ph.Edges[k]); known {
+							env = setEnv(env, key, nn)
+						} else {
+							env = dropEnv(env, key)
+						}
+					}
 					continue
 				}
 				for k, pb := range s.Preds {
@@ -474,6 +502,14 @@ func (p *Prog) Sources(v ssa.Value) []ssa.Value {
 		seen[v] = true
 		switch x := v.(type) {
 		case *ssa.Phi:
+			if p.phiFeasible != nil {
+				if ks := p.phiFeasible(x); ks != nil {
+					for _, k := range ks {
+						walk(x.Edges[k], d+1)
+					}
+					return
+				}
+			}
 			for _, e := range x.Edges {
 				walk(e, d+1)
 			}
@@ -572,4 +608,113 @@ func (p *Prog) IsCallResult(v ssa.Value, name string, idx int) bool {
 		}
 	}
 	return false
+}
+
+// SourcesAt is Sources as seen from instruction at: a join phi whose sibling boolean phi (same block, constant
+// operands) is tested by a branch that dominates at contributes only the operands of the edges that test allows
+// (a value and the ok flag that left a helper together: behind `if ok`, the value is the one returned with true).
+func (p *Prog) SourcesAt(v ssa.Value, at ssa.Instruction) []ssa.Value {
+	feas := p.feasibleAt(at)
+	if feas == nil {
+		return p.Sources(v)
+	}
+	saved := p.phiFeasible
+	p.phiFeasible = func(x *ssa.Phi) []int { return feas(x.Block()) }
+	out := p.Sources(v)
+	p.phiFeasible = saved
+	return out
+}
+
+// FeasibleEdges lists the incoming edges of join block blk that are consistent with the branches dominating at (nil:
+// no constraint known).
+func (p *Prog) FeasibleEdges(blk *ssa.BasicBlock, at ssa.Instruction) []int {
+	feas := p.feasibleAt(at)
+	if feas == nil {
+		return nil
+	}
+	return feas(blk)
+}
+
+func (p *Prog) feasibleAt(at ssa.Instruction) func(blk *ssa.BasicBlock) []int {
+	type fact struct {
+		ph   *ssa.Phi
+		want bool
+	}
+	var facts []fact
+	from := at.Block()
+	for d := from; d != nil && d.Idom() != nil; d = d.Idom() {
+		a := d.Idom()
+		ifi, isIf := a.Instrs[len(a.Instrs)-1].(*ssa.If)
+		if !isIf {
+			continue
+		}
+		d0 := a.Succs[0].Dominates(from) && len(a.Succs[0].Preds) == 1
+		d1 := a.Succs[1].Dominates(from) && len(a.Succs[1].Preds) == 1
+		if d0 == d1 {
+			continue
+		}
+		cond, want := ifi.Cond, d0
+		for {
+			if u, ok := cond.(*ssa.UnOp); ok && u.Op == token.NOT {
+				cond, want = u.X, !want
+				continue
+			}
+			break
+		}
+		if ph, ok := cond.(*ssa.Phi); ok && isBool(ph.Type()) {
+			facts = append(facts, fact{ph, want})
+		}
+	}
+	if len(facts) == 0 {
+		return nil
+	}
+	return func(blk *ssa.BasicBlock) []int {
+		for _, pb := range blk.Preds {
+			if blk.Dominates(pb) {
+				return nil
+			}
+		}
+		var ks []int
+		constrained := false
+		for k := range blk.Preds {
+			ok := true
+			for _, f := range facts {
+				if f.ph.Block() != blk {
+					continue
+				}
+				if cb, isC := f.ph.Edges[k].(*ssa.Const); isC && cb.Value != nil && cb.Value.Kind() == constant.Bool {
+					constrained = true
+					if constant.BoolVal(cb.Value) != f.want {
+						ok = false
+					}
+				}
+			}
+			if ok {
+				ks = append(ks, k)
+			}
+		}
+		if !constrained || len(ks) == 0 {
+			return nil
+		}
+		return ks
+	}
+}
+
+// nilness: whether a value is known to be non-nil (true) or nil (false) by its construction: the nil constant;
+// allocations, closures, interface boxing, make(...); errors.New and fmt.Errorf (which never return nil).
+func (p *Prog) nilness(v ssa.Value) (nonNil bool, known bool) {
+	switch x := v.(type) {
+	case *ssa.Const:
+		if x.IsNil() {
+			return false, true
+		}
+	case *ssa.Alloc, *ssa.MakeClosure, *ssa.MakeInterface, *ssa.MakeMap, *ssa.MakeChan, *ssa.MakeSlice, *ssa.Function:
+		return true, true
+	case *ssa.Call:
+		switch p.CalleeName(&x.Call) {
+		case "fmt.Errorf", "errors.New":
+			return true, true
+		}
+	}
+	return false, false
 }
